@@ -287,12 +287,38 @@ func (w *World) helperObstacle(f *Func) string {
 			}
 		}
 	}
-	// recursion
-	for t := range w.CG().Reach(f) {
+	// recursion: over static calls and calls through the repository's own interfaces. A call through a library
+	// interface (io.Closer.Close on the log's file handle) resolves, by method set alone, to every Close() in the
+	// repository; such an edge does not make a helper recursive
+	libIface := func(cs *CallSite) bool {
+		if cs.Callee == nil {
+			return false
+		}
+		sig, _ := cs.Callee.Type().(*types.Signature)
+		if sig == nil || sig.Recv() == nil {
+			return false
+		}
+		if _, isIface := sig.Recv().Type().Underlying().(*types.Interface); !isIface {
+			return false
+		}
+		return cs.Callee.Pkg() == nil || pkgKey(cs.Callee.Pkg().Path()) == ""
+	}
+	seen := map[*Func]bool{f: true}
+	work := []*Func{f}
+	for len(work) > 0 {
+		t := work[len(work)-1]
+		work = work[:len(work)-1]
 		for _, cs := range w.CG().Sites[t] {
+			if libIface(cs) {
+				continue
+			}
 			for _, tg := range cs.Targets {
 				if tg == f {
 					return "recursive"
+				}
+				if !seen[tg] {
+					seen[tg] = true
+					work = append(work, tg)
 				}
 			}
 		}
